@@ -585,7 +585,7 @@ func runP5(p *an.Prog, r *an.Result) {
 			for _, o := range an.Origins(k, an.StepBase) {
 				if c := an.CallOf(o); c != nil {
 					n := an.CallName(c)
-					if (n == "(reflect.Value).MapKeys" || n == "values.SortedMapKeys") && sameRV(c.Args[0], m) {
+					if (n == "(reflect.Value).MapKeys" || c.StaticCallee() != nil && returnsKeyListOf(p, c.StaticCallee())) && sameRV(c.Args[0], m) {
 						fromKeys = true
 					}
 				}
@@ -2339,4 +2339,74 @@ func resultTypeByArgument(p *an.Prog, ta *ssa.TypeAssert) string {
 		}
 	}
 	return ""
+}
+
+// returnsKeyListOf: the module function returns the keys of the map it is given - rv.MapKeys() of its
+// first parameter, possibly reordered: every result originates from that call, and nothing is stored
+// into an element of the list except another element of it (a swap). A list into which rebuilt values
+// are put (reflect.ValueOf(k.String())) is not the map's keys any more: their type may differ.
+func returnsKeyListOf(p *an.Prog, fn *ssa.Function) bool {
+	if fn == nil || fn.Blocks == nil || !p.InModule(fn) || len(fn.Params) == 0 || fn.Signature.Results().Len() != 1 {
+		return false
+	}
+	var keys []ssa.Value
+	ok, n := true, 0
+	an.EachInstr(fn, func(in ssa.Instruction) {
+		ret, isRet := in.(*ssa.Return)
+		if !isRet {
+			return
+		}
+		n++
+		for _, o := range an.Origins(resultsOf(ret)[0], an.StepValue) {
+			kc := an.CallOf(o)
+			if kc == nil || an.CallName(kc) != "(reflect.Value).MapKeys" || kc.Args[0] != ssa.Value(fn.Params[0]) {
+				ok = false
+				continue
+			}
+			keys = append(keys, o)
+		}
+	})
+	if !ok || n == 0 {
+		return false
+	}
+	isKeys := func(v ssa.Value) bool {
+		for _, o := range an.Origins(v, an.StepValue) {
+			for _, k := range keys {
+				if o == k {
+					return true
+				}
+			}
+		}
+		return false
+	}
+	for _, f := range unitOf(fn) {
+		an.EachInstr(f, func(in ssa.Instruction) {
+			st, isSt := in.(*ssa.Store)
+			if !isSt {
+				return
+			}
+			ia, isIA := st.Addr.(*ssa.IndexAddr)
+			if !isIA {
+				return
+			}
+			base := ia.X
+			if fv, isFV := an.Deref(base).(*ssa.FreeVar); isFV {
+				_ = fv
+			}
+			if !isKeys(base) {
+				return
+			}
+			// the stored value must be an element of the list itself
+			good := false
+			if ld, isLd := st.Val.(*ssa.UnOp); isLd {
+				if ia2, isIA2 := ld.X.(*ssa.IndexAddr); isIA2 && isKeys(ia2.X) {
+					good = true
+				}
+			}
+			if !good {
+				ok = false
+			}
+		})
+	}
+	return ok
 }
